@@ -53,6 +53,28 @@ class Größe(JB):  # a non-ASCII identifier is a legal class name
     pass
 
 
+class JU(SubclassJSONSerializer):
+    """written with the in-place idiom: data = super().to_json(); data.update(...)"""
+
+    def __init__(self, x=None, items=None):
+        self.x = x
+        self.items = [] if items is None else items
+
+    def to_json(self):
+        data = super().to_json()
+        data.update({"x": to_json(self.x), "items": to_json(self.items)})
+        return data
+
+    @classmethod
+    def _from_json(cls, data, **kwargs):
+        return cls(from_json(data["x"]), from_json(data["items"]))
+
+    def __eq__(self, o):
+        return type(o) is type(self) and same(self.x, o.x) and same(self.items, o.items)
+
+    __hash__ = None
+
+
 # ---- registered third-party types: a base and a subclass of it, registered base first --------------
 class Money:
     def __init__(self, amount):
@@ -121,10 +143,10 @@ def tags_ok(v, j):
     """the serialised form of every object carries its fully qualified type tag"""
     if isinstance(v, list):
         return isinstance(j, list) and len(j) == len(v) and all(tags_ok(a, b) for a, b in zip(v, j))
-    if isinstance(v, (SubclassJSONSerializer, uuid.UUID, Money, Fraction)):
+    if isinstance(v, (SubclassJSONSerializer, uuid.UUID, Money, Fraction)):  # (JU is a SubclassJSONSerializer)
         if not (isinstance(j, dict) and j.get(JSON_TYPE_NAME) == type(v).__module__ + "." + type(v).__name__):
             return False
-        if isinstance(v, JA):
+        if isinstance(v, (JA, JU)):
             return tags_ok(v.x, j.get("x")) and tags_ok(v.items, j.get("items"))
     return True
 
@@ -141,6 +163,11 @@ def round_trip_case(top, depth, mode=None, cls_index=0):
                 v = [inner_value(ctx, "e0", depth - 1), pick_leaf(ctx, "e1", SMALL[:3])]
             elif mode == "two-leaves":
                 v = [pick_leaf(ctx, "e0", LEAVES), pick_leaf(ctx, "e1", LEAVES)]
+            elif mode == "one-class-twice":
+                # several instances of exactly the same class with different field values in one value
+                cls = (CLASSES + [JU])[ctx.choice("cls", len(CLASSES) + 1)]
+                a, b = pick_leaf(ctx, "xa", SMALL), pick_leaf(ctx, "xb", SMALL)
+                v = [cls(a, []), cls(b, [cls(a, [])] if ctx.flag("nested") else [])]
             elif mode == "aliased":
                 # the same list / object occurs several times in the value (a finite value, not a cycle)
                 inner = inner_value(ctx, "e0", depth - 1)
@@ -181,7 +208,7 @@ def round_trip_case(top, depth, mode=None, cls_index=0):
 def cases(tier, seed):
     depth = 2 if tier == "quick" else 3
     cs = [Case("leaf values", round_trip_case("leaf", 0), validate=0)]
-    for mode in ("empty", "one-nested", "nested+leaf", "two-leaves", "aliased"):
+    for mode in ("empty", "one-nested", "nested+leaf", "two-leaves", "aliased", "one-class-twice"):
         cs.append(Case("lists|%s|depth<=%d" % (mode, depth), round_trip_case("list", depth, mode), key="lists|" + mode, validate=0, timeout=900 if tier == "quick" else 3000, max_paths=2000000))
     for ci, c in enumerate(CLASSES):
         for mode in ("x-nested", "x-leaf", "items-nested", "items-two"):
